@@ -872,10 +872,31 @@ func runC07(w *fw.Worker) {
 			select {
 			case res = <-done:
 			case <-time.After(20 * time.Second):
-				// the call is blocked past its own context: C08's clause, but report it here too
-				w.Violation(i, "blocking-report-did-not-return-after-context-ended", fmt.Sprintf("placement %s: BlockingReportNewValue still blocked 20s after its context was cancelled", placement), desc)
-				cancel()
-				return
+				// the call is blocked past its own context (C08's clause, reported here too) if its goroutine is parked
+				// inside BlockingReportNewValue in two dumps 300ms apart, the context long cancelled; otherwise the
+				// machine is slow
+				parked := func() string {
+					for _, g := range dialsGoroutines([]string{"BlockingReportNewValue"}) {
+						if h := strings.SplitN(g, "\n", 2)[0]; strings.Contains(h, "[select") || strings.Contains(h, "[chan send") || strings.Contains(h, "[chan receive") {
+							return g
+						}
+					}
+					return ""
+				}
+				g1 := parked()
+				time.Sleep(300 * time.Millisecond)
+				g2 := parked()
+				select {
+				case res = <-done:
+				default:
+					if g1 != "" && g2 != "" {
+						w.Violation(i, "blocking-report-did-not-return-after-context-ended", fmt.Sprintf("placement %s: BlockingReportNewValue still blocked 20s after its context was cancelled (parked in two dumps 300ms apart)", placement), map[string]any{"case": desc, "goroutine": fw.TrimStack(g1)})
+					} else {
+						w.Inconclusive(i, "a cancelled blocking report has not returned after 20s, but its goroutine is not parked inside BlockingReportNewValue")
+					}
+					cancel()
+					return
+				}
 			}
 			cancel()
 			fmt.Fprintf(&sig, "[%s:%d]", cls, res.res)
